@@ -41,6 +41,7 @@ void instantiate() {
   ::babylon::ThreadId::for_each([](uint16_t, uint16_t) {});
   (void)::babylon::LeakyThreadId::current_thread_id<int>();
   (void)::babylon::LeakyThreadId::end<int>();
+  ::babylon::LeakyThreadId::for_each<int>([](uint16_t, uint16_t) {});
   box_ops<int>(1);
   box_ops<::std::string>("x");
 }
